@@ -41,7 +41,7 @@ def c11fApply (s : C11FState) (o : Op) : C11FState × String :=
 def c11fStep (s : C11FState) : List String → C11FState × String
   | "reset" :: md :: b :: mt :: mh :: cs =>
     ({ c := { minDepth := nat! md, best := nat! b,
-              main := { txid := nat! mt, confHeight := nat! mh, confIn := true, scid := true },
+              main := { txid := nat! mt, confHeight := nat! mh, confIn := nat! mh != 0, scid := nat! mh != 0 },
               cands := cs.map (fun t => { txid := nat! t }) }, locks := [] }, "ok")
   | ["preset", md, b, mt] =>
     ({ pre := some { minDepth := nat! md, best := nat! b, main := { txid := nat! mt } } }, "ok")
